@@ -12,6 +12,7 @@ import (
 	protocol "github.com/longportapp/openapi-protocol/go"
 	_ "github.com/longportapp/openapi-protocol/go/v1"
 	_ "github.com/longportapp/openapi-protocol/go/v2"
+	"github.com/longportapp/openapi-protocol/go/verifhook"
 	"github.com/pkg/errors"
 )
 
@@ -127,9 +128,11 @@ func (conn *tcpConn) write(data []byte) error {
 	if conn.closed() {
 		return errConnClosed
 	}
+	verifhook.Point("conn.write:before-enqueue", verifhook.ID(conn))
 
 	select {
 	case conn.writeCh <- data:
+		verifhook.Point("conn.write:enqueued", verifhook.ID(conn), uint64(len(data)))
 		return nil
 	default:
 	}
@@ -144,6 +147,7 @@ func (conn *tcpConn) OnPacket(fn func(*protocol.Packet, error)) {
 
 		go func() {
 			defer close(conn.packetCh)
+			defer verifhook.Point("conn.dispatcher:exit", verifhook.ID(conn))
 
 			for {
 				if conn.closed() {
@@ -199,6 +203,7 @@ func (conn *tcpConn) closed() bool {
 }
 
 func (conn *tcpConn) reading() {
+	defer verifhook.Point("conn.reader:exit", verifhook.ID(conn))
 	for {
 		if conn.closed() {
 			return
@@ -212,6 +217,7 @@ func (conn *tcpConn) reading() {
 		}
 
 		conn.logger.Debug("got data")
+		verifhook.Point("conn.read", verifhook.ID(conn), uint64(n))
 
 		if n == 0 {
 			continue
@@ -263,10 +269,12 @@ func (conn *tcpConn) addPacket(p *protocol.Packet) {
 	case conn.packetCh <- p:
 	default:
 		conn.logger.Warn("drop packet for channel full")
+		verifhook.Point("conn.addPacket:drop", verifhook.ID(conn))
 	}
 }
 
 func (conn *tcpConn) writing() {
+	defer verifhook.Point("conn.writer:exit", verifhook.ID(conn))
 	buf := ringbuffer.New(4096)
 
 	t := time.NewTicker(time.Microsecond * 500)
